@@ -169,7 +169,7 @@ Inductive event :=
 | EvPatPmt (b : bytes)                             (* FeedPatPmt *)
 | EvFeed (audio : bool) (pts dts : Z) (boundary : bool) (now : Z) (pk : bytes)   (* FeedMpegts; hls.Clock reads now (ms) *)
 | EvDispose                                        (* Group.stopHlsIfNeeded: Dispose; hlsMuxer = nil *)
-| EvCleanup.                                       (* the deferred task of ServerManager.CleanupHlsIfNeeded fires *)
+| EvCleanup.                                       (* the moment the deferred task of ServerManager.CleanupHlsIfNeeded would fire *)
 
 Record world := mkworld { w_mux : option mux; w_fs : fs }.
 
@@ -189,7 +189,8 @@ Definition step (c : cfg) (w : world) (e : event) : option mux * list op :=
   | EvPatPmt b, Some m => (Some (with_patpmt m b), [])
   | EvFeed a p d b n pk, Some m => let '(m1, o) := feed c m (w_fs w) a p d b n pk in (Some m1, o)
   | EvDispose, Some m => let '(_, o) := close_fragment c m (w_fs w) true in (None, o)
-  | EvCleanup, None => (None, [ORemoveAll PDir])    (* no muxer alive: hls.RemoveAll(outPath) *)
+  | EvCleanup, None =>                              (* no muxer alive: hls.RemoveAll(outPath); scheduled in modes 1 and 2 only *)
+      (None, if (c_mode c =? 1) || (c_mode c =? 2) then [ORemoveAll PDir] else [])
   | EvCleanup, Some m => (Some m, [])               (* "cancel cleanup ... since hls muxer still alive" *)
   | _, None => (None, [])
   end.
